@@ -186,7 +186,7 @@ async def history(root, rnd, encrypted, prop, n_ops, long_lived=False):
             await r.close()
             for v in victims:
                 del model[v]
-            if prop == 'C08':
+            if prop in ('C08', 'C07'):
                 # when delete completes, every chunk referenced only by the deleted snapshots is gone
                 new_orphans = set(Local(root / 'repo').list_files('data/')) - await all_referenced() - orphans_before
                 if new_orphans:
@@ -359,6 +359,42 @@ async def many_orphans(root, encrypted, n_chunks):
     return problems
 
 
+async def twins(root, encrypted):
+    """several snapshots that share chunks ONLY with each other are deleted in one call (pruning snapshots of unchanged data): nothing
+    they referenced may stay; then snapshots with pairwise distinct chunk sets deleted in one call, in both name orders"""
+    global CACHE_MODE
+    CACHE_MODE = 'none'
+    problems = []
+    users = await setup_users(root, encrypted)
+    user = users[0]
+    src = root / 'src'
+    src.mkdir()
+    r = await open_repo(root, user)
+    names = []
+    with lib.quiet():
+        (src / 'a').write_bytes(lib.content(500, 500))
+        keep = (await r.snapshot(paths=[src])).name                      # stays
+        (src / 'a').write_bytes(lib.content(501, 700))
+        for _ in range(2):
+            names.append((await r.snapshot(paths=[src])).name)          # two snapshots of unchanged data: chunks shared by exactly these two
+        (src / 'a').write_bytes(lib.content(502, 650))
+        names.append((await r.snapshot(paths=[src])).name)              # distinct content
+        (src / 'a').write_bytes(lib.content(503, 600))
+        names.append((await r.snapshot(paths=[src])).name)              # distinct content
+        for victims in ([names[0], names[1]], [names[3], names[2]]):
+            await r.delete_snapshots(victims, confirm=False)
+            _, locs = await loaded(root, user)
+            present = set(Local(root / 'repo').list_files('data/'))
+            if present - set(locs):
+                problems.append({'problem': 'delete of several snapshots in one call left chunks only they referenced', 'n': len(present - set(locs)),
+                                 'deleted_in_one_call': len(victims)})
+            if set(locs) - present:
+                problems.append({'problem': 'delete of several snapshots in one call removed chunks a remaining snapshot references', 'n': len(set(locs) - present)})
+        await r.restore(snapshot_regex=f'^{keep}$', path=root / 'out_twins')
+    await r.close()
+    return problems
+
+
 def main():
     payload = lib.read_payload()
     tier, seed, prop = payload.get('tier', 'quick'), int(payload.get('seed', 0)), payload.get('prop', 'C02')
@@ -386,6 +422,17 @@ def main():
                     failures.append({'id': f'hist_{int(encrypted)}_{h}', 'class': None, 'case': case, 'detail': probs[:3]})
                 if len(samples) < 3:
                     samples.append(case)
+    if prop in ('C07', 'C08', 'C02'):
+        for encrypted in (True, False):
+            with lib.scratch('vf_hist_') as root:
+                cases += 1
+                try:
+                    probs = asyncio.run(twins(root, encrypted))
+                except Exception as e:
+                    import traceback
+                    probs = [{'problem': 'exception', 'error': f'{type(e).__name__}: {e}'[:300], 'tb': traceback.format_exc()[-600:]}]
+                if probs:
+                    failures.append({'id': f'twins_{int(encrypted)}', 'class': None, 'case': {'encrypted': encrypted, 'scenario': 'several snapshots deleted in one call'}, 'detail': probs[:3]})
     if prop == 'C08':
         # completeness at scale: a snapshot interrupted just before its snapshot object was written leaves MANY orphans (more than
         # any plausible batch / page / pool size); one clean must remove all of them and nothing of the other users
